@@ -35,7 +35,8 @@ ASSUME Deviations \subseteq AllDeviations
 
 VARIABLES
     doc,       \* the document (sequence of nodes)
-    lim,       \* [dl, ll, vl] limits of this run
+    lim,       \* [dl, ll, vl] limits currently in force (a <config> element may change them)
+    lim0,      \* limits the run started with
     phase,     \* "build" | "run" | "done"
     stack,     \* call stack of frames
     ret,       \* return register
@@ -51,8 +52,8 @@ VARIABLES
     px,        \* x coordinate of the previous element ("^")
     passes     \* history: number of retry passes executed (hidden by VIEW)
 
-vars == <<doc, lim, phase, stack, ret, depth, scopes, emap, omap, inSpecs, rng, result, out, gx, px, passes>>
-view == <<doc, lim, phase, stack, ret, depth, scopes, emap, omap, inSpecs, rng, result, out, gx, px>>
+vars == <<doc, lim, lim0, phase, stack, ret, depth, scopes, emap, omap, inSpecs, rng, result, out, gx, px, passes>>
+view == <<doc, lim, lim0, phase, stack, ret, depth, scopes, emap, omap, inSpecs, rng, result, out, gx, px>>
 
 Ids == 1..MaxNodes
 LimitKinds == {"depth", "loop", "var"}
@@ -64,7 +65,7 @@ RetFail(kind) == [s |-> "fail", items |-> <<>>, kind |-> kind]
 InitNode == [Node(0, "var") EXCEPT !.asg = <<<<"a", Lit(InitVal)>>, <<"b", Lit(InitVal)>>>>]
 FullDoc == IF InitVal >= 0 THEN <<InitNode>> \o doc ELSE doc
 
-Ctx == [doc |-> FullDoc, dl |-> lim.dl, ll |-> lim.ll, vl |-> lim.vl, str |-> StrMode, iv |-> UNDEF, rc |-> 1]
+Ctx == [doc |-> FullDoc, dl |-> lim0.dl, ll |-> lim0.ll, vl |-> lim0.vl, str |-> StrMode, iv |-> UNDEF, rc |-> 1]
 
 (***************************************************************************)
 (* Build phase: families of documents                                      *)
@@ -125,6 +126,21 @@ Choices ==
                    h \in ExistingIds({"leaf", "g"}) \cup {Sz + 2},
                    l \in {<<>>, <<<<"a", 2>>>>, <<<<"a", 3>>, <<"b", 1>>>>}}
          \cup {[Node(0, "var") EXCEPT !.asg = <<<<"a", Lit(0)>>>>]}
+    [] Family = "looplim" ->
+         \* every loop form with iteration counts around the limit, nested in one another
+         {[Node(0, "loop") EXCEPT !.form = "count", !.cnt = c] : c \in 1..3}
+         \cup {[Node(0, "loop") EXCEPT !.form = "for", !.cnt = c, !.lv = "a", !.start = 1, !.step = 1] : c \in 2..3}
+         \cup {[Node(0, "loop") EXCEPT !.form = "while", !.cond = Lt("b", c)] : c \in {2, 3}}
+         \cup {[Node(0, "loop") EXCEPT !.form = "until", !.cond = Ge("b", c)] : c \in {2, 3}}
+         \cup {[Node(0, "leaf") EXCEPT !.rd = "b"], [Node(0, "var") EXCEPT !.asg = <<<<"b", Inc("b")>>>>],
+               [Node(0, "if") EXCEPT !.cond = Lt("b", 2)]}
+    [] Family = "config" ->
+         \* limits set from the document, with loops / nesting / values around the new limit
+         {[Node(0, "config") EXCEPT !.loc = l] : l \in {<<<<"ll", 1>>>>, <<<<"ll", 3>>>>, <<<<"dl", 2>>>>, <<<<"dl", 3>>, <<"ll", 2>>>>}}
+         \cup {[Node(0, "loop") EXCEPT !.form = "count", !.cnt = c] : c \in {1, 2, 3}}
+         \cup {[Node(0, "loop") EXCEPT !.form = "while", !.cond = Lt("b", 3)]}
+         \cup {[Node(0, "var") EXCEPT !.asg = <<<<"b", Inc("b")>>>>]}
+         \cup {Node(0, "leaf"), Node(0, "g"), Node(0, "cont")}
     [] Family = "rng" ->
          \* no references: every probe expression is evaluated exactly once per rendered element
          {[Node(0, "leaf") EXCEPT !.rnd = r, !.rd = v] : r \in BOOLEAN, v \in {"-", "a"}}
@@ -142,7 +158,7 @@ RECURSIVE HasRef(_), EscWrites(_), AllNodesOK(_)
 HasRef(nd) == (nd.k = "leaf" /\ nd.ref > 0)
               \/ (nd.k = "reuse")    \* a reuse may be retried when its target comes later
               \/ \E i \in 1..Len(nd.ch) : HasRef(nd.ch[i])
-EscWrites(nd) == nd.k = "var" \/ (nd.k = "loop" /\ nd.lv # "-")
+EscWrites(nd) == nd.k \in {"var", "config"} \/ (nd.k = "loop" /\ nd.lv # "-")
                  \/ (nd.k \in {"cont", "if", "loop", "specs"} /\ \E i \in 1..Len(nd.ch) : EscWrites(nd.ch[i]))
 \* a subtree that may be re-evaluated must not write variables that escape it
 AllNodesOK(list) == \A i \in 1..Len(list) :
@@ -188,7 +204,7 @@ AddNode ==
     /\ \E d \in AttachDepths(doc), nd \in Choices :
           /\ AttachOK(d, nd)
           /\ doc' = AppendAt(doc, d, [nd EXCEPT !.id = Sz + 1])
-    /\ UNCHANGED <<lim, phase, stack, ret, depth, scopes, emap, omap, inSpecs, rng, result, out, gx, px, passes>>
+    /\ UNCHANGED <<lim, lim0, phase, stack, ret, depth, scopes, emap, omap, inSpecs, rng, result, out, gx, px, passes>>
 
 DoneSet == {i \in Ids : emap[i] = "done"}
 NewPe(kids) == [t |-> "pe", kids |-> kids, todo |-> [i \in 1..Len(kids) |-> i], i |-> 1,
@@ -204,7 +220,7 @@ BuildDone ==
     /\ DocOK
     /\ phase' = "run"
     /\ stack' = <<NewPe(FullDoc)>>
-    /\ UNCHANGED <<doc, lim, ret, depth, scopes, emap, omap, inSpecs, rng, result, out, gx, px, passes>>
+    /\ UNCHANGED <<doc, lim, lim0, ret, depth, scopes, emap, omap, inSpecs, rng, result, out, gx, px, passes>>
 
 (***************************************************************************)
 (* Run phase                                                               *)
@@ -235,7 +251,7 @@ TagRegister ==
           /\ omap' = IF nd.k \in IdKinds THEN omap \cup {nd.id} ELSE omap
           /\ scopes' = env
           /\ stack' = Append(SetTopFrame(f2), [NewEl(nd, FALSE) EXCEPT !.sh = Len(env)])
-    /\ UNCHANGED <<doc, lim, phase, ret, depth, inSpecs, rng, result, out, gx, px, passes>>
+    /\ UNCHANGED <<doc, lim, lim0, phase, ret, depth, inSpecs, rng, result, out, gx, px, passes>>
 
 \* scopes after a tag has been dealt with (design: later siblings continue
 \* from the environment the pass had reached)
@@ -250,7 +266,7 @@ TagOk ==
                                             !.i = @ + 1])
           /\ scopes' = AfterTag(f, scopes)
     /\ ret' = RetNone
-    /\ UNCHANGED <<doc, lim, phase, depth, emap, omap, inSpecs, rng, result, out, gx, px, passes>>
+    /\ UNCHANGED <<doc, lim, lim0, phase, depth, emap, omap, inSpecs, rng, result, out, gx, px, passes>>
 
 TagFail ==
     /\ Running /\ Top.t = "pe" /\ ret.s = "fail"
@@ -272,7 +288,7 @@ TagFail ==
           ELSE /\ stack' = SetTopFrame([f EXCEPT !.rem = Append(@, pos), !.i = @ + 1])
                /\ ret' = RetNone
                /\ scopes' = restored
-    /\ UNCHANGED <<doc, lim, phase, depth, emap, omap, inSpecs, rng, result, out, gx, px, passes>>
+    /\ UNCHANGED <<doc, lim, lim0, phase, depth, emap, omap, inSpecs, rng, result, out, gx, px, passes>>
 
 RECURSIVE ConcatRes(_, _)
 ConcatRes(res, i) == IF i > Len(res) THEN <<>> ELSE res[i] \o ConcatRes(res, i + 1)
@@ -296,7 +312,7 @@ PassEnd ==
                                                  !.seen = @ \cup DoneSet])
                /\ ret' = RetNone
                /\ passes' = passes + 1
-    /\ UNCHANGED <<doc, lim, phase, depth, scopes, emap, omap, inSpecs, rng, result, out, gx, px>>
+    /\ UNCHANGED <<doc, lim, lim0, phase, depth, scopes, emap, omap, inSpecs, rng, result, out, gx, px>>
 
 \* --- el frame: SvgElement::generate_events -----------------------------------
 
@@ -316,17 +332,17 @@ ElEnter ==
     /\ Running /\ Top.t = "el" /\ Top.ph = "enter"
     /\ IF depth + 1 > lim.dl
        THEN /\ FailWith("depth")
-            /\ UNCHANGED <<doc, lim, phase, emap, omap, rng, result, out, gx, px, passes>>
+            /\ UNCHANGED <<doc, lim, lim0, phase, emap, omap, rng, result, out, gx, px, passes>>
        ELSE /\ depth' = depth + 1
             /\ stack' = SetTopFrame([Top EXCEPT !.ph = "body"])
-            /\ UNCHANGED <<doc, lim, phase, ret, scopes, emap, omap, inSpecs, rng, result, out, gx, px, passes>>
+            /\ UNCHANGED <<doc, lim, lim0, phase, ret, scopes, emap, omap, inSpecs, rng, result, out, gx, px, passes>>
 
 ElExit ==
     /\ Running /\ Top.t = "el" /\ Top.ph = "exit"
     /\ depth' = IF Top.nd.k = "cont" /\ Dev("LeakDepthContainer") THEN depth ELSE depth - 1
     /\ stack' = Below
     /\ ret' = RetOk(Top.acc)
-    /\ UNCHANGED <<doc, lim, phase, scopes, emap, omap, inSpecs, rng, result, out, gx, px, passes>>
+    /\ UNCHANGED <<doc, lim, lim0, phase, scopes, emap, omap, inSpecs, rng, result, out, gx, px, passes>>
 
 Body(k) == Running /\ Top.t = "el" /\ Top.ph = "body" /\ Top.nd.k = k
 Wait(k, s) == Running /\ Top.t = "el" /\ Top.ph = "wait" /\ Top.nd.k = k /\ ret.s = s
@@ -334,7 +350,7 @@ Wait(k, s) == Running /\ Top.t = "el" /\ Top.ph = "wait" /\ Top.nd.k = k /\ ret.
 ChildFail ==
     /\ Running /\ Top.t = "el" /\ Top.ph = "wait" /\ ret.s = "fail"
     /\ FailWith(ret.kind)
-    /\ UNCHANGED <<doc, lim, phase, emap, omap, rng, result, out, gx, px, passes>>
+    /\ UNCHANGED <<doc, lim, lim0, phase, emap, omap, rng, result, out, gx, px, passes>>
 
 \* resolve position of a shape against the element map, render it
 LeafResolve ==
@@ -361,13 +377,13 @@ LeafResolve ==
                /\ stack' = SetTopFrame([f EXCEPT !.ph = "exit",
                                                  !.acc = <<[id |-> nd.id, v |-> v, x |-> x, stale |-> stale]>>])
                /\ UNCHANGED <<ret, depth, scopes, inSpecs>>
-    /\ UNCHANGED <<doc, lim, phase, omap, result, out, passes>>
+    /\ UNCHANGED <<doc, lim, lim0, phase, omap, result, out, passes>>
 
 GroupPush ==
     /\ Body("g")
     /\ scopes' = Append(scopes, ScopeOf(Top.nd.loc))
     /\ stack' = Append(SetTopFrame([Top EXCEPT !.ph = "wait"]), NewPe(Top.nd.ch))
-    /\ UNCHANGED <<doc, lim, phase, ret, depth, emap, omap, inSpecs, rng, result, out, gx, px, passes>>
+    /\ UNCHANGED <<doc, lim, lim0, phase, ret, depth, emap, omap, inSpecs, rng, result, out, gx, px, passes>>
 
 GroupPop ==
     /\ Wait("g", "ok")
@@ -375,18 +391,18 @@ GroupPop ==
     /\ emap' = IF Top.inst THEN emap ELSE [emap EXCEPT ![Top.nd.id] = "done"]
     /\ stack' = SetTopFrame([Top EXCEPT !.ph = "exit", !.acc = ret.items])
     /\ ret' = RetNone
-    /\ UNCHANGED <<doc, lim, phase, depth, omap, inSpecs, rng, result, out, gx, px, passes>>
+    /\ UNCHANGED <<doc, lim, lim0, phase, depth, omap, inSpecs, rng, result, out, gx, px, passes>>
 
 ContBody ==
     /\ Body("cont")
     /\ stack' = Append(SetTopFrame([Top EXCEPT !.ph = "wait"]), NewPe(Top.nd.ch))
-    /\ UNCHANGED <<doc, lim, phase, ret, depth, scopes, emap, omap, inSpecs, rng, result, out, gx, px, passes>>
+    /\ UNCHANGED <<doc, lim, lim0, phase, ret, depth, scopes, emap, omap, inSpecs, rng, result, out, gx, px, passes>>
 
 ContDone ==
     /\ Wait("cont", "ok")
     /\ stack' = SetTopFrame([Top EXCEPT !.ph = "exit", !.acc = ret.items])
     /\ ret' = RetNone
-    /\ UNCHANGED <<doc, lim, phase, depth, scopes, emap, omap, inSpecs, rng, result, out, gx, px, passes>>
+    /\ UNCHANGED <<doc, lim, lim0, phase, depth, scopes, emap, omap, inSpecs, rng, result, out, gx, px, passes>>
 
 VarAssign ==
     /\ Body("var")
@@ -395,25 +411,32 @@ VarAssign ==
        ELSE /\ scopes' = AssignTop(scopes, Top.nd.asg)
             /\ stack' = SetTopFrame([Top EXCEPT !.ph = "exit"])
             /\ UNCHANGED <<ret, depth, inSpecs>>
-    /\ UNCHANGED <<doc, lim, phase, emap, omap, rng, result, out, gx, px, passes>>
+    /\ UNCHANGED <<doc, lim, lim0, phase, emap, omap, rng, result, out, gx, px, passes>>
+
+\* <config>: the limits of the rest of the run
+ConfigApply ==
+    /\ Body("config")
+    /\ lim' = ApplyConfig(lim, Top.nd.loc)
+    /\ stack' = SetTopFrame([Top EXCEPT !.ph = "exit"])
+    /\ UNCHANGED <<doc, lim0, phase, ret, depth, scopes, emap, omap, inSpecs, rng, result, out, gx, px, passes>>
 
 IfTest ==
     /\ Body("if")
     /\ IF EvalE(Top.nd.cond, scopes) # 0
        THEN stack' = Append(SetTopFrame([Top EXCEPT !.ph = "wait"]), NewPe(Top.nd.ch))
        ELSE stack' = SetTopFrame([Top EXCEPT !.ph = "exit"])
-    /\ UNCHANGED <<doc, lim, phase, ret, depth, scopes, emap, omap, inSpecs, rng, result, out, gx, px, passes>>
+    /\ UNCHANGED <<doc, lim, lim0, phase, ret, depth, scopes, emap, omap, inSpecs, rng, result, out, gx, px, passes>>
 
 IfDone ==
     /\ Wait("if", "ok")
     /\ stack' = SetTopFrame([Top EXCEPT !.ph = "exit", !.acc = ret.items])
     /\ ret' = RetNone
-    /\ UNCHANGED <<doc, lim, phase, depth, scopes, emap, omap, inSpecs, rng, result, out, gx, px, passes>>
+    /\ UNCHANGED <<doc, lim, lim0, phase, depth, scopes, emap, omap, inSpecs, rng, result, out, gx, px, passes>>
 
 LoopInit ==
     /\ Body("loop")
     /\ stack' = SetTopFrame([Top EXCEPT !.ph = "test", !.it = 0, !.lvv = Top.nd.start])
-    /\ UNCHANGED <<doc, lim, phase, ret, depth, scopes, emap, omap, inSpecs, rng, result, out, gx, px, passes>>
+    /\ UNCHANGED <<doc, lim, lim0, phase, ret, depth, scopes, emap, omap, inSpecs, rng, result, out, gx, px, passes>>
 
 \* loop head: test (count / while), bind the loop variable, run the body
 LoopTest ==
@@ -428,7 +451,7 @@ LoopTest ==
                /\ stack' = Append(SetTopFrame([f EXCEPT !.ph = "wait"]), NewPe(nd.ch))
           ELSE /\ scopes' = scopes
                /\ stack' = SetTopFrame([f EXCEPT !.ph = "exit"])
-    /\ UNCHANGED <<doc, lim, phase, ret, depth, emap, omap, inSpecs, rng, result, out, gx, px, passes>>
+    /\ UNCHANGED <<doc, lim, lim0, phase, ret, depth, emap, omap, inSpecs, rng, result, out, gx, px, passes>>
 
 \* after the body: until-test, count the iteration, check the limit
 LoopAdvance ==
@@ -446,7 +469,7 @@ LoopAdvance ==
                                                  !.lvv = @ + nd.step])
                /\ ret' = RetNone
                /\ UNCHANGED <<depth, scopes, inSpecs>>
-    /\ UNCHANGED <<doc, lim, phase, emap, omap, rng, result, out, gx, px, passes>>
+    /\ UNCHANGED <<doc, lim, lim0, phase, emap, omap, rng, result, out, gx, px, passes>>
 
 \* <reuse>: bind attributes, instantiate the ORIGINAL of the target
 ReusePush ==
@@ -459,14 +482,14 @@ ReusePush ==
                /\ stack' = Append(SetTopFrame([f EXCEPT !.ph = "wait"]),
                                   [NewEl(Instance(NodeById(doc, h), f.nd), TRUE) EXCEPT !.sh = Len(scopes) + 1])
                /\ UNCHANGED <<ret, depth, inSpecs>>
-    /\ UNCHANGED <<doc, lim, phase, emap, omap, rng, result, out, gx, px, passes>>
+    /\ UNCHANGED <<doc, lim, lim0, phase, emap, omap, rng, result, out, gx, px, passes>>
 
 ReusePop ==
     /\ Wait("reuse", "ok")
     /\ scopes' = SubSeq(scopes, 1, Len(scopes) - 1)
     /\ stack' = SetTopFrame([Top EXCEPT !.ph = "exit", !.acc = ret.items])
     /\ ret' = RetNone
-    /\ UNCHANGED <<doc, lim, phase, depth, emap, omap, inSpecs, rng, result, out, gx, px, passes>>
+    /\ UNCHANGED <<doc, lim, lim0, phase, depth, emap, omap, inSpecs, rng, result, out, gx, px, passes>>
 
 SpecsEnter ==
     /\ Body("specs")
@@ -475,27 +498,27 @@ SpecsEnter ==
        ELSE /\ inSpecs' = TRUE
             /\ stack' = Append(SetTopFrame([Top EXCEPT !.ph = "wait"]), NewPe(Top.nd.ch))
             /\ UNCHANGED <<ret, depth, scopes>>
-    /\ UNCHANGED <<doc, lim, phase, emap, omap, rng, result, out, gx, px, passes>>
+    /\ UNCHANGED <<doc, lim, lim0, phase, emap, omap, rng, result, out, gx, px, passes>>
 
 SpecsExit ==
     /\ Wait("specs", "ok")
     /\ inSpecs' = FALSE
     /\ stack' = SetTopFrame([Top EXCEPT !.ph = "exit", !.acc = <<>>])
     /\ ret' = RetNone
-    /\ UNCHANGED <<doc, lim, phase, depth, scopes, emap, omap, rng, result, out, gx, px, passes>>
+    /\ UNCHANGED <<doc, lim, lim0, phase, depth, scopes, emap, omap, rng, result, out, gx, px, passes>>
 
 Finish ==
     /\ phase = "run" /\ stack = <<>> /\ ret.s # "none"
     /\ phase' = "done"
     /\ result' = IF ret.s = "ok" THEN "ok" ELSE ret.kind
     /\ out' = ret.items
-    /\ UNCHANGED <<doc, lim, stack, ret, depth, scopes, emap, omap, inSpecs, rng, gx, px, passes>>
+    /\ UNCHANGED <<doc, lim, lim0, stack, ret, depth, scopes, emap, omap, inSpecs, rng, gx, px, passes>>
 
 RunNext ==
     \/ TagRegister \/ TagOk \/ TagFail \/ PassEnd
     \/ ElEnter \/ ElExit \/ ChildFail
     \/ LeafResolve \/ GroupPush \/ GroupPop \/ ContBody \/ ContDone
-    \/ VarAssign \/ IfTest \/ IfDone
+    \/ VarAssign \/ ConfigApply \/ IfTest \/ IfDone
     \/ LoopInit \/ LoopTest \/ LoopAdvance
     \/ ReusePush \/ ReusePop \/ SpecsEnter \/ SpecsExit
     \/ Finish
@@ -505,6 +528,7 @@ Next == AddNode \/ BuildDone \/ RunNext
 Init ==
     /\ doc = <<>>
     /\ lim \in [dl : DepthLimits, ll : LoopLimits, vl : VarLimits]
+    /\ lim0 = lim
     /\ phase = "build"
     /\ stack = <<>> /\ ret = RetNone
     /\ depth = 0 /\ scopes = <<InitScope(UNDEF)>>
